@@ -33,7 +33,7 @@ end
 mutual
 /-- what an HTML5 tokenizer must find in the serialiser's output for an evaluated DOM -/
 def toksENode (indent : Nat) : Node → List Tok
-  | .text d => if trimSpace d == [] then [] else (spaces indent ++ d).map .ch
+  | .text d => if blankText d then [] else (spaces indent ++ d).map .ch
   | .comment _ => []
   | .doctype _ => if Generated.rendersDoctype then [.comment, .ch '\n'] else []
   | .elem tag attrs kids =>
